@@ -33,8 +33,17 @@ def check(tier, seed):
         base = vm_checks.sample_jobs() + fam
     per_prog = {}
     nviol = [0]
-    for ci, cfg in enumerate(configs):
-        jobs = [dict(j, **cfg) for j in base]
+    # every heap size of a window for the allocation-heavy family programs (80 % rule): the heap runs out, or the collector
+    # is triggered, at every allocation of every multi-allocation handler in turn; all runs that complete must agree
+    fine = []
+    for j in fam:
+        if j.get("meta", {}).get("alloc") and j["args"] == ["9"] and (tier != "quick" or j["name"].startswith(("alloc_records", "alloc_strings"))):
+            for m in range(24, 150 if tier == "quick" else 400):
+                fine.append(dict(j, name="%s_m%d" % (j["name"], m), group=j["name"] + "#fine", gc=0, mem=m))
+    for ci, cfg in enumerate(configs + [None]):
+        jobs = [dict(j, **cfg) for j in base] if cfg is not None else fine
+        if cfg is None:
+            cfg = dict(gc=0, mem="24..")
         def on_result(j, r, st, det, io, cfg=cfg):
             if st in ("no-run", "compile-crash", "skipped-ffi"):
                 return True
@@ -43,11 +52,11 @@ def check(tier, seed):
                 return st in ("ok",)   # heap too small for this program: outside the quantifier
             if k.startswith(("sanitizer", "signal", "assert", "crash")):
                 # a crash that appears only under some schedule is a C04 failure; one that appears under all is C01's
-                per_prog.setdefault(j["name"], []).append((cfg, ("CRASH", vm_checks.crash_signature(r)), r["err"][-600:]))
+                per_prog.setdefault(j.get("group", j["name"]), []).append((dict(gc=j.get("gc"), mem=j.get("mem")), ("CRASH", vm_checks.crash_signature(r)), r["err"][-600:]))
                 return True
             if "stack too large" in r["err"]:
                 return st == "ok"
-            per_prog.setdefault(j["name"], []).append((cfg, outcome_key(r, io), ""))
+            per_prog.setdefault(j.get("group", j["name"]), []).append((dict(gc=j.get("gc"), mem=j.get("mem")), outcome_key(r, io), ""))
             return False
         vm_checks.sweep(h, rep, jobs, "c04_cfg%d" % ci, stats, on_result)
     h.close()
@@ -59,7 +68,7 @@ def check(tier, seed):
             differing += 1
             if nviol[0] < 3:
                 nviol[0] += 1
-                src = next((j.get("src") or ("file " + str(j.get("file"))) for j in base if j["name"] == name), "")
+                src = next((j.get("src") or ("file " + str(j.get("file"))) for j in base + fine if j.get("group", j["name"]) == name), "")
                 rep.violation("c04_schedule_%s" % name, "# the outcome of program %s depends on heap size / collection schedule\n%s\n--- program ---\n%s" %
                               (name, "\n".join("# %s -> %s %s" % (o[0], str(o[1])[:300], o[2][-200:].replace("\n", " ")) for o in outs), src), True)
     rep.cov.update(trusted_base=["Lean 4.33 kernel", "axioms: propext, Classical.choice, Quot.sound", "harnesses h_gc.c, h_vm.c and comparators", "gcc/ASan/UBSan"],
